@@ -1006,7 +1006,19 @@ const KEY_BYTES: std::ops::RangeFrom<usize> = 64..;
 
 /// The identifier of a record.
 #[derive(Clone, Serialize, Deserialize, PartialEq, Eq, PartialOrd, Ord)]
+#[serde(try_from = "Bytes")]
 pub struct RecordIdentifier(Bytes);
+
+impl TryFrom<Bytes> for RecordIdentifier {
+    type Error = &'static str;
+
+    fn try_from(bytes: Bytes) -> Result<Self, Self::Error> {
+        if bytes.len() < KEY_BYTES.start {
+            return Err("record identifier is shorter than namespace and author id");
+        }
+        Ok(Self(bytes))
+    }
+}
 
 impl Default for RecordIdentifier {
     fn default() -> Self {
